@@ -228,6 +228,17 @@ Theorem C09_accessor_copies_independent : gen_accessor_private = true /\ accesso
 Proof. exact (conj accessor_private_ok accessor_witness_ok). Qed.
 Print Assumptions C09_accessor_copies_independent.
 
+(* 13. What the abstract `regrid` of theorems 4 / 7 stands for in DenseVectorFieldTransform.grid_, read from the
+       source: the old parameters are read on the OLD lattice with the old grid's own flags
+       (prev_grid.reshape(params.shape[2:]) -- no flag of the new grid), sampled on the data grid of the new
+       grid, converted to the new axes, then installed with data_ -- for every stride; and __deepcopy__
+       hands the copy clones of the cached non-leaf buffers.  (Numerically: stride 2, 3 x align_corners flip on
+       affine fields, and deep copies with cached buffers, are evaluated by the search on every run.) *)
+Theorem C09_regrid_reads_old_lattice_and_deepcopy_clones :
+  gen_regrid_reads_old_lattice = true /\ gen_deepcopy_clones = true.
+Proof. exact (conj regrid_reads_old_lattice_ok deepcopy_clones_ok). Qed.
+Print Assumptions C09_regrid_reads_old_lattice_and_deepcopy_clones.
+
 (* non-vacuity: the hypotheses of 1, 2 and 4 are met by concrete reachable states of the executable
    instance, and the conclusions are observed there (including the two repaired cases: a B-spline model
    with callable parameters after grid_, a dense model moved to a grid differing only in align_corners) *)
